@@ -55,9 +55,10 @@ def repr_string(string: str, indent: int = 0, prefer_single_qoute: bool = False)
         secondary_multiline_quote = "'''"
 
     if "\n" not in string:
-        if _AMBIGUOUS_BACKSLASH.search(string):
+        if _AMBIGUOUS_BACKSLASH.search(string) or "\f" in string:
             # Backslashes can not be escaped in single line literals (\\n, \\' and \\" would be read as escape
-            # sequences). Multi line literals are taken verbatim, so write the string as one, on a single line.
+            # sequences) and a form feed can not be part of one at all.
+            # Multi line literals are taken verbatim, so write the string as one, on a single line.
             for delimiter in (preferred_multiline_quote, secondary_multiline_quote):
                 if delimiter not in string and not string.endswith(delimiter[0]) and "\r" not in string:
                     return f"{delimiter}{string}{delimiter}"
